@@ -206,8 +206,14 @@ func genLog(lg *cf.Log, r *cf.Rng, cfg *cf.Config, prop string, id *int, lastApp
 	txnMode := prop == "C11" && lg.Magic == 2
 	appendPhase := false
 	at := int64(0)
+	logAppend := lg.Magic >= 1 && r.Intn(8) == 0 // a LogAppendTime topic: the broker's clock, not the producer's
+	appendTs := int64(1600000000000)
 	for i := 0; i < nb; i++ {
 		b := cf.Batch{Base: next}
+		if logAppend {
+			appendTs += int64(r.Range(0, 5000))
+			b.AppendTsMs = appendTs
+		}
 		if !appendPhase && i > nb/2 && r.Intn(4) == 0 {
 			appendPhase = true
 		}
